@@ -402,6 +402,12 @@ func C04(ctx *core.Ctx) error {
 	cov.Set("cut_points_at_which_old_committee_signed", totalCuts)
 	cov.Set("runs", len(outs))
 	_ = obs.Ed
+	// data-level conformance: real ECDSA resharings on toy curves, every value recomputed by TLC (ResharingData.tla)
+	if ctx.Replay == "" {
+		if err := rdPhase(ctx, cov, "C04"); err != nil {
+			return err
+		}
+	}
 	return ctx.WriteEvidence("model_checking",
 		"one case = one real resharing run (old (n,t), participating subset size, new (n',t') with t'<t,=t,>t, proofs on/off, schedule, optionally one party going silent at a seeded step); "+
 			"after every single call the harness records which old shares are intact (compared with a snapshot), which new members emitted, which final ACKs are on the wire; "+
